@@ -5,6 +5,7 @@ package main
 // supervisor (main.go) copes with the worker dying in the middle of a step.
 
 import (
+	"sort"
 	"bufio"
 	"bytes"
 	"context"
@@ -189,16 +190,20 @@ func (w *worker) emit(v any) {
 // ---------------------------------------------------------------------------------------
 
 type httpObs struct {
-	Code       int    `json:"code"`
-	BodyKind   string `json:"bodyKind"`
-	ErrCode    int    `json:"errCode"`
-	ErrMessage string `json:"errMessage"`
+	Code       int      `json:"code"`
+	BodyKind   string   `json:"bodyKind"`
+	ErrCode    int      `json:"errCode"`
+	ErrMessage string   `json:"errMessage"`
+	MesgType   string   `json:"mesgType"`  // claim replies: the type of the message and the promises it carries
+	Promises   []string `json:"promises"`  // (sorted keys of the "promises" object)
 }
 
 type grpcObs struct {
-	Code    int    `json:"code"`
-	Message string `json:"message"`
-	Flags   flags  `json:"flags"`
+	Code     int      `json:"code"`
+	Message  string   `json:"message"`
+	Flags    flags    `json:"flags"`
+	MesgType string   `json:"mesgType"`
+	Promises []string `json:"promises"`
 }
 
 type obs struct {
@@ -218,7 +223,8 @@ type obs struct {
 }
 
 func newObs(v *vector, proto string) *obs {
-	return &obs{E: "obs", I: v.I, Op: v.Op, Status: v.Status, Via: v.Via, Shape: v.Shape, Cause: v.Cause, Proto: proto}
+	return &obs{E: "obs", I: v.I, Op: v.Op, Status: v.Status, Via: v.Via, Shape: v.Shape, Cause: v.Cause, Proto: proto,
+		HTTP: httpObs{Promises: []string{}}, GRPC: grpcObs{Promises: []string{}}}
 }
 
 func classifyBody(body []byte) (kind string, code int, message string) {
@@ -246,6 +252,7 @@ func classifyBody(body []byte) (kind string, code int, message string) {
 }
 
 func (w *worker) sendHTTP(r *lreq) (o httpObs, replied bool) {
+	o.Promises = []string{}
 	hr := r.http()
 	if hr == nil {
 		return o, false
@@ -273,19 +280,38 @@ func (w *worker) sendHTTP(r *lreq) (o httpObs, replied bool) {
 	b, _ := io.ReadAll(resp.Body)
 	o.Code = resp.StatusCode
 	o.BodyKind, o.ErrCode, o.ErrMessage = classifyBody(b)
+	o.Promises = []string{}
+	var doc map[string]any
+	if json.Unmarshal(b, &doc) == nil {
+		if t, ok := doc["type"].(string); ok {
+			o.MesgType = t
+		}
+		if ps, ok := doc["promises"].(map[string]any); ok {
+			for k := range ps {
+				o.Promises = append(o.Promises, k)
+			}
+			sort.Strings(o.Promises)
+		}
+	}
 	return o, true
 }
 
 func (w *worker) sendGRPC(r *lreq) (o grpcObs, replied bool) {
+	o.Promises = []string{}
 	ctx, cancel := context.WithTimeout(context.Background(), clientTimeout)
 	defer cancel()
 	f, err := r.grpc(ctx, w.gc)
+	o.Promises = []string{}
 	if err != nil {
 		st := status.Convert(err)
 		o.Code, o.Message = int(st.Code()), st.Message()
 		return o, true
 	}
 	o.Flags = f
+	o.MesgType, o.Promises = f.MesgType, f.Promises
+	if o.Promises == nil {
+		o.Promises = []string{}
+	}
 	return o, true
 }
 
@@ -321,7 +347,7 @@ func readVectors(path string) ([]*vector, error) {
 		if v.Via != "response" && v.Via != "error" {
 			return nil, fmt.Errorf("%s:%d: unknown via %q", path, n+1, v.Via)
 		}
-		if v.Via == "response" && v.Shape != "full" && v.Shape != "min" && v.Shape != "absent" {
+		if v.Via == "response" && v.Shape != "full" && v.Shape != "min" && v.Shape != "absent" && v.Shape != "invoke" && v.Shape != "resume" && v.Shape != "notify" {
 			return nil, fmt.Errorf("%s:%d: unknown shape %q", path, n+1, v.Shape)
 		}
 		vs = append(vs, v)
